@@ -77,21 +77,15 @@ class MemPerDocWriter(base.PerDocWriterWithColumns):
         self._storage = storage
         self._segment = segment
         self.is_closed = False
-        self._colwriters = {}
-        self._doccount = 0
 
-    def _has_column(self, fieldname):
-        return fieldname in self._colwriters
-
-    def _create_column(self, fieldname, column):
-        colfile = self._storage.create_file("%s.c" % fieldname)
-        self._colwriters[fieldname] = (colfile, column.writer(colfile))
-
-    def _get_column(self, fieldname):
-        return self._colwriters[fieldname][1]
+    def add_column_value(self, fieldname, column, value):
+        # Every buffered document gets its own writer object, so the values
+        # are kept on the (shared) segment and turned into a column on demand
+        with self._segment._lock:
+            colvalues = self._segment._colvalues.setdefault(fieldname, {})
+            colvalues[self._docnum] = value
 
     def start_doc(self, docnum):
-        self._doccount += 1
         self._docnum = docnum
         self._stored = {}
         self._lengths = {}
@@ -118,11 +112,6 @@ class MemPerDocWriter(base.PerDocWriterWithColumns):
             self._segment._vectors[docnum] = self._vectors
 
     def close(self):
-        colwriters = self._colwriters
-        for fieldname in colwriters:
-            colfile, colwriter = colwriters[fieldname]
-            colwriter.finish(self._doccount)
-            colfile.close()
         self.is_closed = True
 
 
@@ -150,14 +139,25 @@ class MemPerDocReader(base.PerDocumentReader):
         return True
 
     def has_column(self, fieldname):
-        filename = "%s.c" % fieldname
-        return self._storage.file_exists(filename)
+        return fieldname in self._segment._colvalues
 
     def column_reader(self, fieldname, column):
-        filename = "%s.c" % fieldname
-        colfile = self._storage.open_file(filename)
-        length = self._storage.file_length(filename)
-        return column.reader(colfile, 0, length, self._segment.doc_count_all())
+        from whoosh.filedb.filestore import RamStorage
+
+        doccount = self._segment.doc_count_all()
+        with self._segment._lock:
+            values = sorted(self._segment._colvalues[fieldname].items())
+        # Write the values through the column's own writer into a private file
+        st = RamStorage()
+        colfile = st.create_file(fieldname)
+        colwriter = column.writer(colfile)
+        for docnum, value in values:
+            if docnum < doccount:
+                colwriter.add(docnum, value)
+        colwriter.finish(doccount)
+        colfile.close()
+        return column.reader(st.open_file(fieldname), 0,
+                             st.file_length(fieldname), doccount)
 
     def doc_field_length(self, docnum, fieldname, default=0):
         return self._segment._lengths[docnum].get(fieldname, default)
@@ -297,6 +297,7 @@ class MemSegment(base.Segment):
         self._stored = {}
         self._lengths = {}
         self._vectors = {}
+        self._colvalues = {}
         self._invindex = {}
         self._terminfos = {}
         self._lock = Lock()
